@@ -84,7 +84,9 @@ chk("C06", "model_checking",
     "RtrSession models client, server connection and a changing source with one action per server call into the source; TLC checks "
     "SyncCorrect (data handed to the target = source data for the End-of-Data state restricted to the negotiated version; state and "
     "timing adopted), version stability, no stale session, plus liveness, for every client/server version pair incl. downgrade against "
-    "a legacy cache, three client start states and diff windows, with source updates interleaved at every point. Every emitted "
+    "a legacy cache, three client start states and diff windows, with source updates interleaved at every point; with transport "
+    "faults enabled (ConnLost at every point of every response) it also checks FailAtomic: a failing step hands nothing to the target "
+    "and leaves the client's state alone. Every emitted "
     "behaviour is executed with the real Client and real Server on a paused single-threaded runtime (updates injected at the recorded "
     "source-call index, serials at 0 and at wrap-around); long randomly scheduled connections are recorded at the PayloadSource/"
     "PayloadTarget boundary and validated step by step by Trace_RtrSession with all invariants on.",
